@@ -277,9 +277,19 @@ func c20DistinctRouteGroups(c *Ctx, r *Report, rule string) {
 				return
 			}
 			n++
-			if p, ok := constString(call.Call.Args[1]); ok {
-				prefixes[p] = append(prefixes[p], posOf(c, call))
-			} else {
+			// a constant, or one constant per service (a result variable assigned in the cases of a switch)
+			allConst := true
+			for _, lf := range leavesOf(resolveMem(call.Call.Args[1])) {
+				p, ok := constString(resolveMem(lf.val))
+				if !ok {
+					allConst = false
+					continue
+				}
+				if p != "" { // "" is the no-such-service exit, which mounts nothing
+					prefixes[p] = append(prefixes[p], posOf(c, call))
+				}
+			}
+			if !allConst {
 				r.viol(rule, fmt.Sprintf("%s|group#%d", fnKey(newRouter), n), posOf(c, call), "the prefix of a route group is not a constant: cannot tell whether two services share a path")
 			}
 		})
